@@ -265,14 +265,14 @@ type seqHooks struct {
 	// skip returns a known-finding id when the step would trigger a listed finding (step is left out).
 	skip func(step []string, db *model.DB) string
 	// observe is called after each compared step with the pre-state clone, for classification.
-	observe func(step []string, before *model.DB, exp model.Exp, st *kit.Stats, flags map[string]bool)
+	observe func(step []string, before *model.DB, exp model.Exp, st *kit.Stats, flags map[string]int)
 	// noDump disables the per-step dump comparison (still done at the end).
 	noDump bool
 }
 
 // runSeq executes the case on a fresh emulator and on the model, comparing every reply and the
 // complete observable state after every step.
-func runSeq(c SeqCase, st *kit.Stats, h seqHooks, flags map[string]bool) error {
+func runSeq(c SeqCase, st *kit.Stats, h seqHooks, flags map[string]int) error {
 	emu := kit.StartEmu("")
 	defer emu.Stop()
 	conn := emu.Dial()
@@ -284,6 +284,12 @@ func runSeq(c SeqCase, st *kit.Stats, h seqHooks, flags map[string]bool) error {
 				st.Exclude(id)
 				continue
 			}
+		}
+		// a command whose outcome the model deliberately leaves open (documented don't-care corner) is
+		// not executed at all, so that model and emulator cannot drift apart
+		if n := nowMs(); db.Clone().Exec(argv, model.Time{Lo: n, Hi: n}).Kind == model.EAny {
+			st.Class("dont-care-skipped")
+			continue
 		}
 		var before *model.DB
 		if h.observe != nil {
